@@ -1589,7 +1589,7 @@ class JSExec(GoExec, SpecMixin, CallsMixin):
         n = 0
         for (how, state, info) in exits:
             self.trace = ['exit', n]; n += 1
-            if how == 'return' and info == ['$abstract']:
+            if how == 'return' and len(info) == 1 and isinstance(info[0], str) and info[0] == '$abstract':
                 eenv = SpecEnv(entry, self.spec_binds(entry), entry)
                 for i, cl in enumerate(c.get('throws_when')):
                     self.oblige(state, 'abstracted-path-only-if-not-throws_when#%d' % (i + 1), z3.Not(self.sev_bool(eenv, cl.expr)), src=cl.line)
